@@ -173,8 +173,11 @@ Definition bufs_load (s : st) : st :=
 
 Definition bufs_shift (s : st) : st := bufs_load (set_bufs s (tl (bufs s) ++ [None])).
 
+(* bufs_save(); if (bufs[0].lb) lbuf_modified(bufs[0].lb);  -- the command ends for the buffer being left *)
 Definition bufs_switch (s : st) (idx : nat) : st :=
-  let s1 := bufs_save s in bufs_load (set_bufs s1 (switch (bufs s1) idx)).
+  let s1 := bufs_save s in
+  let s2 := set_bufs s1 (upd0 bump (bufs s1)) in
+  bufs_load (set_bufs s2 (switch (bufs s2) idx)).
 
 Fixpoint renum (l : list slot) (n : Z) : list slot * Z :=
   match l with
@@ -486,6 +489,9 @@ Definition region (addr : option Z) (row n : Z) : bool * Z * Z :=
       let b := if (a - 1 <? 0) && (e =? 0) then 0 else a - 1 in
       ((b <? 0) || (b >=? n) || (e <? b) || (e >? n), b, e)
   end.
+(* ex_zero: address 0 is only meaningful for the commands that add text *)
+Definition ex_zero (addr : option Z) (b e : Z) : bool :=
+  match addr with Some _ => (b =? 0) && (e =? 0) | None => false end.
 Definition splice (t : content) (b e : Z) (ins : content) : content :=
   firstn (Z.to_nat b) t ++ ins ++ skipn (Z.to_nat e) t.
 
@@ -503,7 +509,7 @@ Definition cop_run (o : cop) (l : clb) (v : view) : (clb * view) * list cout :=
       ((clb_edit t' l, set_row v (Z.max 0 (Z.min (zlen t' - 1) (b + zlen t' - n - 1)))), [])
   | ODelete addr =>
       let '(err, b, e) := region addr row n in
-      if err || (n =? 0) then ((l, v), []) else
+      if err || ex_zero addr b e || (n =? 0) then ((l, v), []) else
       let t' := splice t b e [] in
       ((if b =? e then l else clb_edit t' l, set_row v (Z.max 0 (Z.min b (zlen t' - 1)))), [])
   | OSubst addr tag =>
@@ -521,7 +527,7 @@ Definition cop_run (o : cop) (l : clb) (v : view) : (clb * view) * list cout :=
   | OPrintAll => ((l, set_row_off0 v (Z.max 0 (n - 1))), map OLine t)
   | OPrintAt k =>
       let '(err, b, e) := region (Some k) row n in
-      if err then ((l, v), []) else
+      if err || ex_zero (Some k) b e then ((l, v), []) else
       ((l, set_row_off0 v (Z.max b (e - 1))), map OLine (firstn (Z.to_nat (e - b)) (skipn (Z.to_nat b) t)))
   end.
 
